@@ -14,7 +14,10 @@ composed into the topologies the real proxy uses:
 
 A tiny dedicated driver feeds an interleaving of {event for A, event for B, completion of the i-th outstanding
 command}.  Monitors on the real log (direct, from the statement): exactly_once, arrival_order, no_reentry,
-own_completion, sibling_not_blocked; and trace_equals_spec: the complete stamped log and the sequence of emitted
+own_completion, sibling_not_blocked, handler_state_current (probes are two-state machines: op X reassigns
+self._handle_event like TCP/UDP/DNS/WebSocket layers do; every event must be handled by the state its predecessors left
+behind, also when it was queued); live_equals_queued (real DNSLayer / TCPLayer / UDPLayer: the same events delivered
+while a hook is pending produce the same commands as when every completion is immediate); and trace_equals_spec: the complete stamped log and the sequence of emitted
 commands equal those of the independent sequential specification vf/ref/c04_seqspec.py ("one queue per layer").
 """
 from __future__ import annotations
@@ -39,15 +42,16 @@ ENGINE = "sansio"
 TECHNIQUE = "bounded exhaustive interleaving enumeration + random schedules; log replay against an independent sequential specification"
 BUDGET = {"quick": (2500, 13), "thorough": (400_000, 150)}
 WORKERS = {"quick": 4, "thorough": 16}
-REQUIRED = ["exactly_once", "arrival_order", "no_reentry", "own_completion", "sibling_not_blocked", "trace_equals_spec", "nextlayer_replay_order", "tunnel_queue_order"]
+REQUIRED = ["exactly_once", "arrival_order", "no_reentry", "own_completion", "sibling_not_blocked", "trace_equals_spec", "nextlayer_replay_order", "tunnel_queue_order", "handler_state_current", "live_equals_queued"]
 RULE = (
     "case = (topology in {single, router, next-single, next-router, tunnel-single, tunnel-router, lazy-tunnel}, script family "
-    "[which commands each probe yields per event: blocking hook / blocking open / send / wakeup], parameters [k-th question decides, "
+    "[which commands each probe yields per event: blocking hook / blocking open / send / wakeup / handler-state switch], parameters [k-th question decides, "
     "handshake length, tunnel's own blocking hook], interleaving string over {a = event for A, b = event for B, i = completion of the "
     "i-th oldest outstanding command}); all strings of length 6 (quick) / 7 (thorough) are enumerated for every listed "
     "(topology, family, parameter) configuration, followed by random strings of length <= 40 with random scripts; distinct = "
     "(configuration, interleaving string) for the enumeration and (topology, length class, queue-depth class, command kinds, features) for "
-    "random ones; non-trivial iff at least one event arrived while its layer (or a layer in front of it) was waiting / undecided / establishing"
+    "random ones; plus real DNS/TCP/UDP layers fed 2-7 generated events (valid/malformed DNS messages, data, one final close) live vs. with delayed "
+    "hook completions (distinct = layer, #events, hooks seen, closes); non-trivial iff at least one event arrived while its layer (or a layer in front of it) was waiting / undecided / establishing"
 )
 ASSUMPTIONS = [
     "every outstanding command is eventually completed exactly once by the environment (what ConnectionHandler guarantees); the run is closed by completing outstanding commands oldest-first",
@@ -104,6 +108,10 @@ class Probe(layer.Layer):
         h = self.h
         for k, op in enumerate(h.script(self.name, uid)):
             key = f"{self.name}/{uid}/{k}{op}"
+            if op == "X":
+                # state-machine idiom of the real layers (TCP/UDP/DNS/WebSocket/modes): switch the handler, no command
+                self._handle_event = self._state1 if self._handle_event == self._state0 else self._state0
+                continue
             if op == "H":
                 cmd = C04ProbeHook(key)
             elif op == "O":
@@ -121,10 +129,18 @@ class Probe(layer.Layer):
             else:
                 yield cmd
 
-    def _handle_event(self, ev):
+    def _state0(self, ev):
+        yield from self._handle(ev, 0)
+
+    def _state1(self, ev):
+        yield from self._handle(ev, 1)
+
+    _handle_event = _state0
+
+    def _handle(self, ev, state):
         h = self.h
         uid = uid_of(ev)
-        h.log.append((h.step, self.name, "start", uid))
+        h.log.append((h.step, self.name, "start", uid, state))
         yield from self._ops(uid)
         h.log.append((h.step, self.name, "end", uid))
 
@@ -342,7 +358,24 @@ def fam_lazy_start(name, uid):
     return "H" if uid.startswith("A") else "s"
 
 
-FAMILIES = {f.__name__[4:]: f for f in (fam_all_h, fam_a_blocks, fam_hh_o, fam_parity, fam_wakeup, fam_parent_blocks, fam_start_blocks, fam_tunnel_hook, fam_tunnel_hook1, fam_lazy, fam_lazy_start)}
+def fam_switch(name, uid):
+    """blocked on a hook; a queued event switches the handler state without blocking; later events must see it"""
+    if uid == "S" or name in ("P", "TUN") or uid.startswith("w/"):
+        return ""
+    return ("H", "X", "s")[(int(uid[1:]) - 1) % 3]
+
+
+def fam_switch_mixed(name, uid):
+    if name == "TUN":
+        return "H" if uid == "hs1" else ""
+    if uid == "S" or name == "P" or uid.startswith("w/"):
+        return "X" if uid == "S" and name == "B" else ""
+    if name == "B" or uid[0] == "B":
+        return ("Xs", "H", "sX")[(int(uid[1:]) - 1) % 3]
+    return ("HX", "X", "XH", "s")[(int(uid[1:]) - 1) % 4]
+
+
+FAMILIES = {f.__name__[4:]: f for f in (fam_switch, fam_switch_mixed, fam_all_h, fam_a_blocks, fam_hh_o, fam_parity, fam_wakeup, fam_parent_blocks, fam_start_blocks, fam_tunnel_hook, fam_tunnel_hook1, fam_lazy, fam_lazy_start)}
 
 # (topology, family, params) configurations whose interleavings are enumerated
 CONFIGS = [
@@ -371,10 +404,16 @@ CONFIGS = [
     ("lazy-tunnel", "lazy", {"hlen": 1}),
     ("lazy-tunnel", "lazy", {"hlen": 2, "open_err": "refused"}),
     ("lazy-tunnel", "lazy_start", {"hlen": 1}),
+    ("single", "switch", {}),
+    ("single", "switch_mixed", {}),
+    ("router", "switch", {}),
+    ("router", "switch_mixed", {}),
+    ("next-single", "switch", {"decide_at": 1}),
+    ("tunnel-router", "switch_mixed", {"hlen": 1}),
 ]
 ALPHABET = "ab012"
-OPS_DATA = ["", "s", "H", "H", "sHs", "HH", "O", "Hs", "wH", "w", "sO", "HsH"]
-OPS_WAKE = ["", "", "H", "s", "O"]
+OPS_DATA = ["", "s", "H", "H", "sHs", "HH", "O", "Hs", "wH", "w", "sO", "HsH", "X", "X", "Xs", "HX", "XH", "sXH"]
+OPS_WAKE = ["", "", "H", "s", "O", "X"]
 
 
 def random_script(salt, topo):
@@ -389,7 +428,7 @@ def random_script(salt, topo):
         if uid == "S":
             if lazy and r.random() < 0.3:
                 return "T"
-            return r.choice(["", "", "H", "s"])
+            return r.choice(["", "", "H", "s", "X"])
         if lazy and uid == "A1" and "T" not in script("A", "S"):
             return r.choice(["T", "sT", "TH", "HT"])
         if uid.startswith("w/"):
@@ -568,6 +607,17 @@ def judge(ctx, topo, famname, params, word, real, spec, fed, completed, diverged
             elif cur is None or not e[3].startswith(f"{name}/{cur}/"):
                 bad("reply-outside-its-event", layer=name, cur=cur, reply=e[3:])
                 break
+    # ---- state machine: every event is handled by the state that all earlier handled events left behind
+    for name in ("A", "B"):
+        state = 0
+        for e in by_layer.get(name, []):
+            if e[2] != "start":
+                continue
+            ctx.count("handler_state_current")
+            if e[4] != state:
+                bad("event-handled-by-stale-handler-state", layer=name, uid=e[3], handled_in_state=e[4], current_state=state, step=e[0])
+                break
+            state = (state + real.script(name, e[3]).count("X")) % 2
     # ---- each blocking command resumed exactly once, with its own completion, in script order
     replies = [e for e in real.log if e[2] == "reply"]
     seen = set()
@@ -605,6 +655,155 @@ def judge(ctx, topo, famname, params, word, real, spec, fed, completed, diverged
             real_emitted=[k for _, k in real.emitted][-10:],
             spec_emitted=[k for _, k in spec.emitted][-10:],
         )
+
+
+# ---------------------------------------------------------------------------------------------
+# real state-machine layers: the same events delivered live vs. while the layer waits for a completion
+# ---------------------------------------------------------------------------------------------
+
+_FULL_OPTS = None
+
+
+def _full_opts():
+    global _FULL_OPTS
+    if _FULL_OPTS is None:
+        from mitmproxy.addons.proxyserver import Proxyserver
+
+        _FULL_OPTS = options.Options()
+        Proxyserver().load(_FULL_OPTS)
+    return _FULL_OPTS
+
+
+def describe_cmd(cmd, client):
+    side = lambda c: "client" if c is client else "server"  # noqa: E731
+    if isinstance(cmd, commands.SendData):
+        return ("send", side(cmd.connection), bytes(cmd.data))
+    if isinstance(cmd, commands.CloseTcpConnection):
+        return ("close", side(cmd.connection), cmd.half_close)
+    if isinstance(cmd, commands.ConnectionCommand):
+        return (type(cmd).__name__, side(cmd.connection))
+    if isinstance(cmd, commands.StartHook):
+        f = getattr(cmd, "flow", None)
+        extra = None
+        if f is not None and getattr(f, "messages", None):
+            m = f.messages[-1]
+            extra = (len(f.messages), m.from_client, bytes(m.content))
+        elif f is not None and hasattr(f, "request") and hasattr(f, "response") and f.type == "dns":
+            extra = (f.request.id if f.request else None, f.response.id if f.response else None, bool(f.error))
+        return ("hook", cmd.name, extra)
+    if isinstance(cmd, commands.Log):
+        return ("log", cmd.message[:60])
+    return (type(cmd).__name__,)
+
+
+def drive_real_layer(kind, evs, delay):
+    """Feed `evs` (list of (side, payload | None=close)) to a fresh real layer; delay[i] = how many further events
+    arrive before the oldest outstanding completion is delivered after event i (0 = immediately, i.e. live)."""
+    from mitmproxy.proxy.layers import dns as ldns
+    from mitmproxy.proxy.layers import tcp as ltcp
+    from mitmproxy.proxy.layers import udp as ludp
+
+    udp = kind in ("dns", "udp")
+    client = connection.Client(peername=("192.0.2.10", 51234), sockname=("192.0.2.1", 8080), timestamp_start=1.0, state=connection.ConnectionState.OPEN, transport_protocol="udp" if udp else "tcp")
+    c = context.Context(client, _full_opts())
+    c.server.address = ("192.0.2.53", 53)
+    c.server.transport_protocol = "udp" if udp else "tcp"
+    c.server.state = connection.ConnectionState.OPEN
+    c.server.timestamp_start = 1.0
+    top = {"dns": ldns.DNSLayer, "tcp": ltcp.TCPLayer, "udp": ludp.UDPLayer}[kind](c)
+    trace, outstanding = [], []
+    queued_any = False
+
+    def feed(ev):
+        try:
+            for cmd in top.handle_event(ev):
+                trace.append(describe_cmd(cmd, client))
+                if isinstance(cmd, commands.CloseConnection) and not (isinstance(cmd, commands.CloseTcpConnection) and cmd.half_close):
+                    cmd.connection.state = connection.ConnectionState.CLOSED
+                if cmd.blocking:
+                    outstanding.append(cmd)
+        except Exception as e:  # noqa -- part of the compared behaviour
+            trace.append(("raises", type(e).__name__, exc_site(e)))
+
+    def complete():
+        cmd = outstanding.pop(0)
+        feed(events.OpenConnectionCompleted(cmd, None) if isinstance(cmd, commands.OpenConnection) else events.HookCompleted(cmd))
+
+    feed(events.Start())
+    budget = 0
+    for i, (side, payload) in enumerate([("start", None)] + list(evs)):
+        if i:
+            conn = client if side == "c" else c.server
+            if outstanding:
+                queued_any = True
+            feed(events.DataReceived(conn, payload) if payload is not None else events.ConnectionClosed(conn))
+        d = delay[i] if i < len(delay) else 0
+        if d == 0:
+            n = 0
+            while outstanding and n < 50:
+                n += 1
+                complete()
+            budget = 0
+        elif outstanding:
+            if budget <= 0:
+                budget = d
+            budget -= 1
+            if budget == 0:
+                complete()
+    n = 0
+    while outstanding and n < 200:
+        n += 1
+        complete()
+    return trace, queued_any
+
+
+def gen_real_events(r, kind):
+    from mitmproxy.test import tutils
+
+    n = r.randint(2, 6)
+    evs = []
+    ids = []
+    for _ in range(n):
+        side = r.choice("ccs")
+        if kind == "dns":
+            x = r.random()
+            if side == "c":
+                if x < 0.6:
+                    i = r.choice([1, 2, 3, 4])
+                    ids.append(i)
+                    payload = tutils.tdnsreq(id=i).packed
+                elif x < 0.85:
+                    payload = r.choice([b"\x00", b"", b"\x00\x01\x02", tutils.tdnsreq(id=9).packed[:7]])
+                else:
+                    payload = tutils.tdnsresp(id=r.choice(ids or [1])).packed
+            else:
+                payload = tutils.tdnsresp(id=r.choice(ids + [7] if ids else [7])).packed if x < 0.8 else r.choice([b"\x00", b"\xff" * 5])
+        else:
+            payload = bytes(r.choice(b"abcxyz\x00\xff") for _ in range(r.choice([1, 3, 20])))
+        evs.append((side, payload))
+    if r.random() < 0.3:
+        evs.append((r.choice("cs"), None))  # one close, only as the very last event (layers read connection state)
+    return evs
+
+
+def real_layer_case(ctx, r):
+    kind = r.choice(["dns", "dns", "tcp", "udp"])
+    evs = gen_real_events(r, kind)
+    live, _ = drive_real_layer(kind, evs, [0] * (len(evs) + 1))
+    delay = [r.choice([0, 1, 2, 2, 3, 5, 9]) for _ in range(len(evs) + 1)]
+    queued, queued_any = drive_real_layer(kind, evs, delay)
+    ctx.count("live_equals_queued")
+    if live != queued:
+        n = next((i for i, (x, y) in enumerate(zip(live, queued)) if x != y), min(len(live), len(queued)))
+        ctx.violation(
+            "queued-events-not-handled-like-live-events",
+            {"layer": kind, "events": [(s, p) for s, p in evs], "completion_delays": delay, "first_difference_at": n, "live": live[n : n + 4], "queued": queued[n : n + 4], "live_len": len(live), "queued_len": len(queued)},
+            classify(kind, "live-vs-queued", ""),
+        )
+    hooks = tuple(sorted({t[1] for t in live if t[0] == "hook"}))
+    closes = sum(1 for t in live if t[0] in ("close", "CloseConnection"))
+    sig = ("real", kind, len(evs), hooks, min(closes, 2), any(p is None for _, p in evs), queued_any)
+    ctx.case(sig, nontrivial=queued_any, sample={"layer": kind, "events": [(s, p) for s, p in evs], "completion_delays": delay, "commands": [list(map(str, t))[:3] for t in live[:12]]})
 
 
 # ---------------------------------------------------------------------------------------------
@@ -664,6 +863,9 @@ def run(ctx):
             if not ok:
                 ctx.count("enumeration_chunks_cut_by_time_budget")
             ctx.count("enumerated_interleavings", n)
+            continue
+        if r.random() < 0.3:
+            real_layer_case(ctx, r)
             continue
         # ---- random longer interleavings with random scripts
         topo = r.choice(["single", "router", "router", "next-single", "next-router", "tunnel-single", "tunnel-router", "lazy-tunnel"])
